@@ -270,7 +270,10 @@ class Mode:
                         cache["env"] = real
                 if real is None and sum(len(part.n) for part in alg.simple_parts(diff)) <= 120:
                     # small residue: let the solver try to derive the equality from the path condition
-                    st, _m, dt2 = P.check_implies(fs, ("atom", diff, "=="))
+                    try:
+                        st, _m, dt2 = P.check_implies(fs, ("atom", diff, "=="))
+                    except alg.Undecided:
+                        st = "undecided"  # e.g. a complex-valued residue: outside the real-arithmetic solver
                     if st == "discharged":
                         return self._rec(name, "discharged", "z3", time.time() - t, detail="path condition implies the equality")
                 return self._rec(name, "failed", "z3+polyid", time.time() - t, cex={"env": real if real is not None else model, "diff": P.LAST_DIFF[0] if real is not None else 0.0},
